@@ -209,7 +209,7 @@ class Wrapped(InstructionGenerator):
 # ---------------------------------------------------------------------------------------------
 
 
-def gen_queue_world(rng: random.Random, n_steps: int) -> Dict[str, Any]:
+def gen_queue_world(rng: random.Random, n_steps: int, variant: Optional[str] = None) -> Dict[str, Any]:
     """one station with ONE slow plug and 4-6 vehicles at or next to it, several (nearly) full, some nearly flat: long
     queues, arrivals in different steps, ids assigned against the arrival order, vehicles running flat while waiting"""
     dt = 60
@@ -235,7 +235,7 @@ def gen_queue_world(rng: random.Random, n_steps: int) -> Dict[str, Any]:
         vehicles.append({"id": vid, "lat": c[0], "lon": c[1], "mech": "leaf_50", "soc": soc})
     w = {"name": "queue", "dt": dt, "start": 0, "end": dt * n_steps, "cancel": 600, "vehicles": vehicles, "requests": [],
          "stations": stations, "bases": bases, "focus": "queue"}
-    variant = rng.choice(["plain", "plain", "fleet", "mixed"])
+    variant = variant or rng.choice(["plain", "plain", "fleet", "mixed"])
     if variant == "fleet":
         # a PUBLIC station used by fleet members and fleet-less vehicles alike (or a station of the fleet all belong to)
         members = [v["id"] for v in vehicles if rng.random() < 0.5] or [vehicles[0]["id"]]
@@ -258,7 +258,8 @@ def gen_fleet_world(rng: random.Random, n_steps: int) -> Dict[str, Any]:
     """two fleets; vehicles in none / one / both; stations, bases (each with its own station) and requests in none / one
     fleet, all within two cells so that every kind of interaction is attempted often"""
     dt = 60
-    cells = [world.at(0, 0), world.at(450, 0)]
+    far = rng.random() < 0.5          # journeys of several steps: things can change while a vehicle is on its way
+    cells = [world.at(0, 0), world.at(1700 if far else 450, 0)]
     fl = {"fa": {"vehicles": [], "stations": [], "bases": []}, "fb": {"vehicles": [], "stations": [], "bases": []}}
 
     def member(kind, ident, opts):
@@ -268,7 +269,7 @@ def gen_fleet_world(rng: random.Random, n_steps: int) -> Dict[str, Any]:
     stations, bases, vehicles, requests = [], [], [], []
     for k in range(2):
         c = cells[k]
-        stations.append({"id": f"s{k+1}", "lat": c[0], "lon": c[1], "plugs": [("DCFC", 2, True), ("LEVEL_2", 2, True)]})
+        stations.append({"id": f"s{k+1}", "lat": c[0], "lon": c[1], "plugs": [("DCFC", 1 if far else 2, True), ("LEVEL_2", 1 if far else 2, True)]})
         member("stations", f"s{k+1}", [[], ["fa"], ["fb"], ["fa", "fb"]])
         stations.append({"id": f"bs{k+1}", "lat": c[0], "lon": c[1], "plugs": [("LEVEL_2", 2, False)]})
         member("stations", f"bs{k+1}", [[], [], ["fa"], ["fb"]])
@@ -423,6 +424,10 @@ def gen_input_world(rng: random.Random, n_steps: int, dt: Optional[int] = None) 
     prices: List[Dict[str, Any]] = []
     stamps = sorted({max(0, start - 5), start, start + dt * (n_steps // 4), start + dt * (n_steps // 2) + rng.choice([0, 1, dt - 1]),
                      start + dt * (3 * n_steps // 4)})
+    # several blocks falling due in the SAME step (two before the start, two inside one step): each names only some
+    # stations and plugs, so the earlier ones are not superseded
+    third = start + dt * (n_steps // 3)
+    stamps = sorted(set(stamps) | {max(0, start - 9)} | ({third + 1, third + 2} if dt > 3 else set()))
     if mode == "station_id":
         for ts in stamps:
             named = [s for s in stations if rng.random() < 0.6] or [stations[0]]
@@ -588,10 +593,10 @@ def gen_tie_world(rng: random.Random, n_steps: int) -> Dict[str, Any]:
 
 def gen_world(rng: random.Random, *, n_steps: int = 40, fleets: Optional[bool] = None, humans: bool = True,
               dt: Optional[int] = None, tight: bool = True, focus: Optional[str] = None, osm: bool = False,
-              pool: bool = False) -> Dict[str, Any]:
+              pool: bool = False, variant: Optional[str] = None) -> Dict[str, Any]:
     """a small world built to make vehicles contend: few plugs and stalls, co-located entities, low charge"""
     if focus == "queue":
-        return gen_queue_world(rng, n_steps)
+        return gen_queue_world(rng, n_steps, variant)
     if focus == "energy":
         return gen_energy_world(rng, n_steps, dt)
     if focus == "shift":
